@@ -7,6 +7,7 @@ import os
 from typing import Any, Dict, List, Optional, Set, Tuple
 
 from .. import bridge_model as B
+from .. import frames as F
 from .. import layout_spec as LS
 from .. import terms as T
 from ..interp import Ctx, HeapObj, Interp, Outcome, conj, ite
@@ -169,8 +170,10 @@ def run(prog: Program, rep: Report, tier: str) -> None:
                 if role in ("power_if_on", "amps_if_on"):
                     # statement-level branch: the value depends on the path's guard
                     cond_on = state_is_on(state_term, on)
-                    is_on_path = cond_on in o.state.pc
-                    is_off_path = _neg(cond_on) in o.state.pc
+                    from ..interp import decided_by as _decided
+                    d_on = _decided(F.flat_pc(list(o.state.pc)), cond_on)      # (through compound guards, not by literal membership)
+                    is_on_path = d_on is True
+                    is_off_path = d_on is False
                     base = LS.term_of(prog, spec["getters"]["get_power_consumption"], MSG)
                     if role == "amps_if_on":
                         base = ("app", "round", ("app", "truediv", base, c(220.0)), c(1))
